@@ -4,6 +4,8 @@ package expr
 
 import (
 	dtpb "github.com/google/fhir/go/proto/google/fhir/proto/r4/core/datatypes_go_proto"
+	bcrpb "github.com/google/fhir/go/proto/google/fhir/proto/r4/core/resources/bundle_and_contained_resource_go_proto"
+	ppb "github.com/google/fhir/go/proto/google/fhir/proto/r4/core/resources/patient_go_proto"
 	"github.com/verily-src/fhirpath-go/fhirpath/internal/reflection"
 	"github.com/verily-src/fhirpath-go/fhirpath/system"
 	"github.com/verily-src/fhirpath-go/internal/verifrt"
@@ -96,6 +98,51 @@ func VerifHarness_C03_OperatorsDoNotMutate() {
 			verifrt.Assert(own, "result-elements-are-the-inputs-own-nodes")
 		}
 	}
+	verifrt.CheckFrames()
+	verifrt.Reach("end")
+}
+
+// C03: a variable holding resources in the wrapper they have as bundle entries or contained resources (as taken from
+// Bundle.entry.resource): reading it, navigating into it, comparing it or testing its type leaves the caller's slice -
+// every cell up to its capacity - and the wrappers as they were.
+func VerifHarness_C03_VariablesHoldingWrappedResources() {
+	verifrt.IgnorePanics()
+	envV := make(system.Collection, 0, 3)
+	n := 1 + verifrt.Choose("entries", 2)
+	for i := 0; i < n; i++ {
+		if verifrt.NondetBool("emptyWrapper") {
+			envV = append(envV, &bcrpb.ContainedResource{})
+		} else {
+			envV = append(envV, &bcrpb.ContainedResource{OneofResource: &bcrpb.ContainedResource_Patient{Patient: &ppb.Patient{Id: &dtpb.Id{Value: "p"}}}})
+		}
+	}
+	if verifrt.NondetBool("scalar") {
+		envV = envV[:1]
+	}
+	ctx := &Context{ExternalConstants: map[string]any{"v": envV}}
+	if verifrt.NondetBool("scalar") && verifrt.NondetBool("asItem") {
+		ctx.ExternalConstants["v"] = envV[0]
+	}
+	v := &ExternalConstantExpression{Identifier: "v"}
+	var e Expression
+	switch verifrt.Choose("node", 5) {
+	case 0:
+		e = v
+	case 1:
+		e = &ExpressionSequence{Expressions: []Expression{v, &FieldExpression{FieldName: "id"}}}
+	case 2:
+		e = &EqualityExpression{Left: v, Right: v}
+	case 3:
+		e = &IsExpression{Expr: v, Type: reflection.MustCreateTypeSpecifier("FHIR", "Patient")}
+	default:
+		e = &ExpressionSequence{Expressions: []Expression{v, &IndexExpression{Index: verifLit(system.Integer(0))}}}
+	}
+	verifrt.ProtectSlice("env v", envV)
+	for _, w := range envV {
+		verifrt.Protect("wrapper", w)
+	}
+	verifrt.Protect("expression", e)
+	e.Evaluate(ctx, system.Collection{})
 	verifrt.CheckFrames()
 	verifrt.Reach("end")
 }
